@@ -68,87 +68,145 @@ theorem buildL_length : ∀ as : List Ast, (Ast.buildL as).length = as.length
   | [] => rfl
   | a :: as => by simp [Ast.buildL, buildL_length as]
 
+/-! ### … over the same leaf variables with the same bounds -/
+
+mutual
+/-- the leaf variables of a model with their bounds, in tree order (one entry per occurrence) -/
+def leafList : P → List (String × Bnd)
+  | .leaf i b => [(i, b)]
+  | .node _ _ _ _ ks _ => leafListL ks
+def leafListL : List P → List (String × Bnd)
+  | [] => []
+  | k :: ks => leafList k ++ leafListL ks
+end
+
+theorem leafListL_perm : ∀ {l1 l2 : List P}, l1.Perm l2 → (leafListL l1).Perm (leafListL l2) := by
+  intro l1 l2 h
+  induction h with
+  | nil => exact List.Perm.refl _
+  | cons x _ ih => simp only [leafListL]; exact List.Perm.append_left _ ih
+  | swap x y l =>
+      simp only [leafListL]
+      rw [← List.append_assoc, ← List.append_assoc]
+      exact List.Perm.append_right _ List.perm_append_comm
+  | trans _ _ ih1 ih2 => exact ih1.trans ih2
+
+theorem leafList_mkAtLeast (v : Int) (ks : List P) (var sgn cls) :
+    (leafList (mkAtLeast v ks var sgn cls)).Perm (leafListL ks) := by
+  unfold mkAtLeast
+  cases var with
+  | none => simp only [leafList]; exact leafListL_perm (sortById_perm ks)
+  | some x => simp only [leafList]; exact leafListL_perm (sortById_perm ks)
+
+theorem leafListL_append : ∀ a b : List P, leafListL (a ++ b) = leafListL a ++ leafListL b
+  | [], b => by simp [leafListL]
+  | x :: a, b => by simp [leafListL, leafListL_append a b, List.append_assoc]
+
+theorem leafListL_args (l : List (Bool × P)) : (leafListL (orderArgs l)).Perm (leafListL (l.map (·.2))) :=
+  leafListL_perm (C04.orderArgs_perm l)
+
 /-- what the round trip gives for one proposition: a constructor call whose model evaluates alike, and the same for
     the list of its children -/
 def RT (t : P) : Prop :=
-  (∃ a, PJ.toAst false (toJson t) = some a ∧ ∀ σ, evalPt σ a.build = evalPt σ t) ∧
-  (∃ as, PJ.toAstL false (toJsonL t.kids) = some as ∧ ∀ σ, sumPt σ ((Ast.buildL as).map (·.2)) = sumPt σ t.kids)
+  (∃ a, PJ.toAst false (toJson t) = some a ∧ (∀ σ, evalPt σ a.build = evalPt σ t) ∧ (leafList a.build).Perm (leafList t)) ∧
+  (∃ as, PJ.toAstL false (toJsonL t.kids) = some as ∧ (∀ σ, sumPt σ ((Ast.buildL as).map (·.2)) = sumPt σ t.kids) ∧
+    (leafListL ((Ast.buildL as).map (·.2))).Perm (leafListL t.kids))
 
 mutual
 /-- for the fragment, `from_json (to_json t)` builds a model that evaluates like `t` on every assignment -/
 theorem frag_rt : ∀ t : P, Frag t → RT t
   | .leaf i b, _ =>
-      ⟨⟨.var i b, by simp [toJson, leaf_roundtrip], fun σ => by simp [Ast.build, evalPt]⟩,
-       ⟨[], by simp [P.kids, toJsonL, PJ.toAstL], fun σ => by simp [Ast.buildL, sumPt, P.kids]⟩⟩
+      ⟨⟨.var i b, by simp [toJson, leaf_roundtrip], fun σ => by simp [Ast.build, evalPt], by simp [Ast.build, leafList]⟩,
+       ⟨[], by simp [P.kids, toJsonL, PJ.toAstL], fun σ => by simp [Ast.buildL, sumPt, P.kids], by simp [Ast.buildL, leafListL, P.kids]⟩⟩
   | .node i b s v ks m, h => by
       have ⟨hc, hk⟩ : ((m.cls = .atLeast ∧ (s = 1 ∨ s = -1)) ∨ (m.cls = .atMost ∧ s = -1) ∨ (m.cls = .any ∧ s = 1 ∧ v = 1) ∨
           (m.cls = .all ∧ v = ks.length ∧ s = (if v > 0 then 1 else -1) ∧ DistinctRT ks) ∨
           ((m.cls = .xor ∨ m.cls = .exactlyOne) ∧ s = 1 ∧ v = 2 ∧ XorShape ks)) ∧ FragL ks := by
         simpa [Frag] using h
-      obtain ⟨⟨as, has, hsum⟩, hkids⟩ := frag_rtL ks hk
-      refine ⟨?_, ⟨as, by simpa [P.kids] using has, fun σ => by simpa [P.kids] using hsum σ⟩⟩
+      obtain ⟨⟨as, has, hsum, hlf⟩, hkids⟩ := frag_rtL ks hk
+      have hlfo : (leafListL (orderArgs (Ast.buildL as))).Perm (leafListL ks) := (leafListL_args _).trans hlf
+      refine ⟨?_, ⟨as, by simpa [P.kids] using has, fun σ => by simpa [P.kids] using hsum σ, by simpa [P.kids] using hlf⟩⟩
       rcases hc with ⟨hcls, hs⟩ | ⟨hcls, hs⟩ | ⟨hcls, hs, hv⟩ | ⟨hcls, hv, hs, hd⟩ | ⟨hcls, hs, hv, hx⟩
-      · refine ⟨.atLeast v as (idJ i m) (signJ s v), ?_, ?_⟩
+      · refine ⟨.atLeast v as (idJ i m) (signJ s v), ?_, ?_, ?_⟩
         · simp [toJson, hcls, PJ.toAst, has]
         · intro σ
           simp only [Ast.build, evalPt_mkAtLeast, C04.sum_orderArgs, hsum σ, sgnOf_signJ s v hs, evalPt]
-      · refine ⟨.atMost (-v) as (idJ i m), ?_, ?_⟩
+        · simp only [Ast.build, leafList]; exact (leafList_mkAtLeast _ _ _ _ _).trans hlfo
+      · refine ⟨.atMost (-v) as (idJ i m), ?_, ?_, ?_⟩
         · simp [toJson, hcls, PJ.toAst, has]
         · intro σ
           subst hs
           simp only [Ast.build, C04.evalPt_mkAtMost, C04.sum_orderArgs, hsum σ, evalPt]
           split <;> split <;> omega
-      · refine ⟨.any as (idJ i m), ?_, ?_⟩
+        · simp only [Ast.build, mkAtMost, leafList]; exact (leafList_mkAtLeast _ _ _ _ _).trans hlfo
+      · refine ⟨.any as (idJ i m), ?_, ?_, ?_⟩
         · simp [toJson, hcls, PJ.toAst, has]
         · intro σ
           subst hs; subst hv
           simp only [Ast.build, C04.evalPt_mkAny, hsum σ, evalPt]
           split <;> split <;> omega
+        · simp only [Ast.build, mkAny, leafList]; exact (leafList_mkAtLeast _ _ _ _ _).trans hlfo
       · -- All: the value is re-derived from the number of distinct children
-        refine ⟨.all as (idJ i m), ?_, ?_⟩
+        refine ⟨.all as (idJ i m), ?_, ?_, ?_⟩
         · simp [toJson, hcls, PJ.toAst, has]
         · intro σ
           have hlen : as.length = ks.length := by rw [toAstL_length _ as has, toJsonL_length]
           have hdc : (distinctCount (Ast.buildL as) : Int) = v := by rw [hd as has, hlen, hv]
           simp only [Ast.build, mkAll, evalPt_mkAtLeast, C04.sum_orderArgs, hsum σ, hdc, evalPt, hs, sgnOf, Option.getD_none]
+        · simp only [Ast.build, mkAll, leafList]; exact (leafList_mkAtLeast _ _ _ _ _).trans hlfo
       · -- Xor / ExactlyOne: rebuilt from the propositions of one half
         obtain ⟨i1, b1, m1, i2, b2, m2, args, hks⟩ := hx
         -- the children of either half, with their round trip
         have hargs : ∃ as', PJ.toAstL false (toJsonL args) = some as' ∧
-            ∀ σ, sumPt σ ((Ast.buildL as').map (·.2)) = sumPt σ args := by
+            (∀ σ, sumPt σ ((Ast.buildL as').map (·.2)) = sumPt σ args) ∧
+            (leafListL ((Ast.buildL as').map (·.2))).Perm (leafListL args) := by
           rcases hks with rfl | rfl
           · simpa [P.kids] using (hkids (.node i1 b1 1 1 args m1) (by simp)).2
           · simpa [P.kids] using (hkids (.node i1 b1 1 1 args m1) (by simp)).2
-        obtain ⟨as', has', hsum'⟩ := hargs
+        obtain ⟨as', has', hsum', hlf'⟩ := hargs
+        have hlfo' : (leafListL (orderArgs (Ast.buildL as'))).Perm (leafListL args) := (leafListL_args _).trans hlf'
+        have hlx : ∀ oid cls, (leafList (mkXor (Ast.buildL as') oid cls)).Perm (leafList (.node i b s v ks m)) := by
+          intro oid cls
+          have h1 : (leafList (mkXor (Ast.buildL as') oid cls)).Perm (leafListL args ++ leafListL args) := by
+            unfold mkXor mkAll
+            refine (leafList_mkAtLeast _ _ _ _ _).trans ((leafListL_args _).trans ?_)
+            simp only [List.map_cons, List.map_nil, leafListL, List.append_nil]
+            exact List.Perm.append ((leafList_mkAtLeast _ _ _ _ _).trans hlfo')
+              (by unfold mkAtMost; exact (leafList_mkAtLeast _ _ _ _ _).trans hlfo')
+          refine h1.trans ?_
+          rcases hks with rfl | rfl <;> simp [leafList, leafListL]
         have hjson : kidsOfNth ks 0 = toJsonL args := by rcases hks with rfl | rfl <;> simp [kidsOfNth]
         have hev : ∀ σ, evalPt σ (.node i b s v ks m) = if sumPt σ args = 1 then 1 else 0 := by
           intro σ; subst hs; subst hv
           rcases hks with rfl | rfl <;> simp only [evalPt, sumPt] <;> split <;> split <;> split <;> split <;> omega
         rcases hcls with hcls | hcls
-        · refine ⟨.xor as' (idJ i m) false, by simp [toJson, hcls, PJ.toAst, hjson, has'], fun σ => ?_⟩
+        · refine ⟨.xor as' (idJ i m) false, by simp [toJson, hcls, PJ.toAst, hjson, has'], fun σ => ?_, by simpa [Ast.build] using hlx _ _⟩
           rw [hev σ]; simp only [Ast.build, C04.evalPt_mkXor, hsum' σ]
-        · refine ⟨.xor as' (idJ i m) true, by simp [toJson, hcls, PJ.toAst, hjson, has'], fun σ => ?_⟩
+        · refine ⟨.xor as' (idJ i m) true, by simp [toJson, hcls, PJ.toAst, hjson, has'], fun σ => ?_, by simpa [Ast.build] using hlx _ _⟩
           rw [hev σ]; simp only [Ast.build, C04.evalPt_mkXor, hsum' σ]
 theorem frag_rtL : ∀ ks : List P, FragL ks →
-    (∃ as, PJ.toAstL false (toJsonL ks) = some as ∧ ∀ σ, sumPt σ ((Ast.buildL as).map (·.2)) = sumPt σ ks) ∧
+    (∃ as, PJ.toAstL false (toJsonL ks) = some as ∧ (∀ σ, sumPt σ ((Ast.buildL as).map (·.2)) = sumPt σ ks) ∧
+      (leafListL ((Ast.buildL as).map (·.2))).Perm (leafListL ks)) ∧
     (∀ k ∈ ks, RT k)
-  | [], _ => ⟨⟨[], by simp [toJsonL, PJ.toAstL], fun σ => by simp [Ast.buildL, sumPt]⟩, by simp⟩
+  | [], _ => ⟨⟨[], by simp [toJsonL, PJ.toAstL], fun σ => by simp [Ast.buildL, sumPt], by simp [Ast.buildL, leafListL]⟩, by simp⟩
   | k :: ks, h => by
       have ⟨h1, h2⟩ : Frag k ∧ FragL ks := by simpa [FragL] using h
       have hk := frag_rt k h1
-      have ⟨⟨a, ha, hev⟩, _⟩ := hk
-      obtain ⟨⟨as, has, hsum⟩, hall⟩ := frag_rtL ks h2
-      refine ⟨⟨a :: as, by simp [toJsonL, PJ.toAstL, ha, has], fun σ => by simp [Ast.buildL, sumPt, hev σ, hsum σ]⟩, ?_⟩
+      have ⟨⟨a, ha, hev, hla⟩, _⟩ := hk
+      obtain ⟨⟨as, has, hsum, hls⟩, hall⟩ := frag_rtL ks h2
+      refine ⟨⟨a :: as, by simp [toJsonL, PJ.toAstL, ha, has], fun σ => by simp [Ast.buildL, sumPt, hev σ, hsum σ],
+        by simp only [Ast.buildL, List.map_cons, leafListL]; exact List.Perm.append hla hls⟩, ?_⟩
       intro x hx
       rcases List.mem_cons.1 hx with rfl | hx
       · exact hk
       · exact hall x hx
 end
 
-/-- **the round trip preserves meaning** (fragment): converting to JSON and back yields a model that evaluates identically
-    on every assignment -/
+/-- **the round trip preserves meaning and leaves** (fragment): converting to JSON and back yields a model over the same
+    leaf variables with the same bounds (as a multiset of occurrences) that evaluates identically on every assignment -/
 theorem frag_roundtrip (t : P) (h : Frag t) :
-    ∃ a, PJ.toAst false (toJson t) = some a ∧ ∀ σ, evalPt σ a.build = evalPt σ t := (frag_rt t h).1
+    ∃ a, PJ.toAst false (toJson t) = some a ∧ (∀ σ, evalPt σ a.build = evalPt σ t) ∧ (leafList a.build).Perm (leafList t) :=
+  (frag_rt t h).1
 
 def idOf : PJ → Option String
   | .var i _ => some i
